@@ -584,7 +584,12 @@ pub fn run_parent(spec: RunSpec, regressions: bool) -> i32 {
     for (cexe, w, local, total) in plan {
         let log = std::fs::File::create(dir.join(format!("w{}.log", w))).unwrap();
         let log2 = log.try_clone().unwrap();
-        let child = std::process::Command::new(&cexe)
+        use std::os::unix::process::CommandExt;
+        let mut wcmd = std::process::Command::new(&cexe);
+        // every worker leads its own process group and dies with the supervisor; whatever it started (servers, wrappers) is removed with the group
+        wcmd.process_group(0);
+        unsafe { wcmd.pre_exec(|| { libc::prctl(libc::PR_SET_PDEATHSIG, libc::SIGKILL); Ok(()) }); }
+        let child = wcmd
             .arg("child").arg(&spec.property)
             .arg("--tier").arg(spec.tier.name())
             .arg("--seed").arg(spec.seed.to_string())
@@ -610,6 +615,8 @@ pub fn run_parent(spec: RunSpec, regressions: bool) -> i32 {
                 Err(_) => break None,
             }
         };
+        // stragglers of the worker's process group (a server whose owner was stopped by the watchdog, a traced server that outlived its strace)
+        unsafe { libc::kill(-(child.id() as i32), libc::SIGKILL); }
         let inflight_path = dir.join(format!("w{}.inflight", w));
         let result_path = dir.join(format!("w{}.result.json", w));
         match status {
